@@ -807,6 +807,16 @@ def c05(run: Run):
                               tag="c05:stream:" + kind, nontrivial=len(parts) > 1))
         groups.append((ref, ks, data, kind))
 
+    # outputs that lap a dictionary whose size is not a multiple of 16 (4097, 5000), under limits at and just above
+    # the dictionary size: both decoders measure the limit against the same window
+    for m in [x for x in core.gen_material("lzmawrap", run.seed + 5, sizes(run.tier, 4, 12)) if len(x["out"]) > x["dict"]][:sizes(run.tier, 3, 8)]:
+        data = lzma_file(m)
+        for ml in (m["dict"] - 1, m["dict"], m["dict"] + 1, ((m["dict"] + 15) & ~15) - 1, (m["dict"] + 15) & ~15):
+            r2 = run.add("lzma us=hdr ml=%d in=%s" % (ml, data.hex()), oracle=no_crash, tag="c05:oneshot:memlimit-wrap")
+            k2 = [run.add("stream us=hdr ml=%d ops=%s" % (ml, stream_ops(data, parts)), oracle=None, tag="c05:stream:memlimit-wrap")
+                  for parts in chunkings(rng, len(data), 2)]
+            groups.append((r2, k2, data, "memlimit-wrap"))
+
     def post(run):
         for ref, ks, data, kind in groups:
             r = run.impl[ref]
